@@ -112,7 +112,7 @@ func c16pAffine(p [24]uint64) (grpEdPt, bool) {
 }
 
 func c16pPtEq(a, b grpEdPt) bool { return a.X.Cmp(b.X) == 0 && a.Y.Cmp(b.Y) == 0 }
-func c16pPtStr(a grpEdPt) string  { return fmt.Sprintf("(%x,%x)", a.X, a.Y) }
+func c16pPtStr(a grpEdPt) string { return fmt.Sprintf("(%x,%x)", a.X, a.Y) }
 
 // a lazily reduced representation of the same residue, inside the C17 invariant
 func c16pUnreduce(r *vf.Rand, l [8]uint64) [8]uint64 {
